@@ -96,7 +96,7 @@ def trial(sid):
 
 
 def run(ids, jobs):
-    ids = ids or sorted(os.listdir(OUT))
+    ids = ids or sorted(d for d in os.listdir(OUT) if os.path.isdir(os.path.join(OUT, d)))
     with ThreadPoolExecutor(jobs) as ex:
         for sid, res in ex.map(trial, ids):
             mp = os.path.join(OUT, sid, "meta.json")
@@ -114,11 +114,11 @@ def run(ids, jobs):
 def table():
     print("| id | change | needs | confirmed (tests pass / demo fails) | detected by |")
     print("|---|---|---|---|---|")
-    for sid in sorted(os.listdir(OUT)):
+    for sid in sorted(d for d in os.listdir(OUT) if os.path.isdir(os.path.join(OUT, d))):
         m = json.load(open(os.path.join(OUT, sid, "meta.json")))
         c = m.get("confirmed_by_me", {})
         ok = "%s / %s" % ("yes" if c.get("repository_tests_pass_with_change") else "NO", "yes" if c.get("demo_exit_code_with_change") not in (0, None) and c.get("demo_exit_code_without_change") == 0 else "NO")
-        det = ", ".join(m.get("detected_by") or []) or "**missed**"
+        det = ", ".join(m.get("detected_by") or []) or ("(superseded) " + ", ".join(m.get("detected_on_its_base") or []) if m.get("detected_on_its_base") else "**missed**")
         others = [k for k, v in m.get("checks_run", {}).items() if v["exit"] == 0]
         if others and m.get("detected_by"):
             det += " (not by %s)" % ", ".join(others)
